@@ -4,7 +4,7 @@ import copy
 from . import config as cfg
 from . import gen, hist
 from .hbase import HistCheck, answer_of, has_error
-from .runner import bump, death_of, log_hash, stable_hash, sub_rng, empty_result
+from .runner import bump, death_of, log_hash, stable_hash, sub_rng, empty_result, sim_ticks
 
 
 def truth_of_snapshot(check, ctx, case, snap):
@@ -204,6 +204,7 @@ class C05(HistCheck):
             hashes.append(log_hash(resp))
             outs, prefix_out, exc, ticks = self.outputs(sub, resp)
             bump(res, 'runs')
+            bump(res, 'sim-ticks', sim_ticks(resp))
             if death_of(resp) or exc:
                 bump(res, 'died')
                 answers.append(None)
